@@ -50,6 +50,7 @@ type ClientCfg struct {
 	SendComp     string   // "" none
 	NilAccept    []string // names passed to WithAcceptCompression with nil constructors: a no-op
 	FailCodec    bool     // install a codec that fails to marshal marked messages
+	OwnTypeCodec bool     // the client's "proto" codec decodes the service's own message type only, and says so with an error that wraps io.EOF (a stream decoder that ran dry): a gRPC Status cannot be decoded
 	OddURL       bool     // the client's URL passes the library's own check (url.ParseRequestURI) but not http.NewRequest's (url.Parse): a fragment with a stray percent sign
 	Broken       bool     // misconfigured (sends with a compression nobody registered): NewClient records an error that every call returns
 	Accept       []string // custom algorithms in registration order (gzip is registered first by the library)
